@@ -363,6 +363,33 @@ func c11ReleaseAtClose(c *core.Ctx, R string) {
 			}
 		}
 		c.Check(R, "transports.(*polling).OnClose/NOOP-if-writable≺base.OnClose", oc.Pos(), ok, "a pending poll is released with a noop when the transport closes")
+		// a discarded transport can still hold a pending poll (server close, or an upgrade completing while a GET is pending):
+		// either OnClose releases it whatever the discard flag says, or DoClose reaches its discarded arm only when not writable
+		discAny := func(x *core.Unit, br core.Branch) bool {
+			_, key := x.AsCall(br.Cond)
+			return !br.IsCase && (key == "transports.(Transport).Discarded" || key == "transports.(*transport).Discarded")
+		}
+		noopIgnoresDiscard := noop != nil
+		if noop != nil {
+			for _, f := range g.Facts() {
+				if discAny(oc, f.Br) && g.EdgeDominates(f.Br.B, f.Edge, noop.Loc) {
+					noopIgnoresDiscard = false
+				}
+			}
+		}
+		discardedArmNotWritable := false
+		if dc != nil {
+			dg := dc.Graph()
+			disc := boolCallGuard(true, "transports.(Transport).Discarded", "transports.(*transport).Discarded")
+			notWr := boolCallGuard(false, "transports.(Transport).Writable", "transports.(*transport).Writable")
+			for _, cl := range dc.Calls() {
+				if cl.Callee == nil && cl.Name == "onClose" && dg.GuardedBy(cl.Loc, disc) {
+					discardedArmNotWritable = dg.GuardedBy(cl.Loc, notWr)
+				}
+			}
+		}
+		c.Check(R, "transports.(*polling)/discarded∧writable→poll-released", oc.Pos(), noopIgnoresDiscard || discardedArmNotWritable,
+			keyf("OnClose's NOOP does not depend on Discarded(): %v; DoClose's discarded arm is reached only when not writable: %v", noopIgnoresDiscard, discardedArmNotWritable))
 	}
 	if sd := c.Fn(R, "transports.(*polling).send"); sd != nil {
 		g := sd.Graph()
